@@ -10,6 +10,7 @@ package main
 // goal shows that nothing runs after Close; two iterations are interleaved.
 
 import (
+	"errors"
 	"fmt"
 	"path/filepath"
 	"runtime"
@@ -122,6 +123,10 @@ func runC12(outDir string, seed int64, tier string) {
 						}
 					case 3:
 						if e := sols.Close(); e != nil {
+							if !errors.Is(e, prolog.ErrClosed) {
+								done <- "RClosed other-error (* " + e.Error() + " *)"
+								return
+							}
 							done <- "RClosed true"
 						} else {
 							done <- "RClosed false"
@@ -146,6 +151,18 @@ func runC12(outDir string, seed int64, tier string) {
 			if blocked {
 				stuck++
 				sum.Failures = append(sum.Failures, failure{ID: id, Class: "solutions:call-blocks", Input: desc, Observed: strings.Join(results, " "), Expected: "every call returns promptly"})
+			}
+			// the property, directly: the first Close reports nothing, every later one reports ErrClosed
+			closes := 0
+			for i, c := range sc {
+				if i >= len(results) || c != 3 {
+					continue
+				}
+				closes++
+				if want := map[bool]string{true: "RClosed false", false: "RClosed true"}[closes == 1]; results[i] != want {
+					sum.Failures = append(sum.Failures, failure{ID: id, Class: "solutions:repeated-close", Input: desc, Observed: strings.Join(results, " "), Expected: "nil from the first Close, ErrClosed from every later one"})
+					break
+				}
 			}
 			// the infinite producer's Scan value is always 1: normalise to the answer count for the model
 			if pr.k < 0 {
